@@ -5,6 +5,10 @@ import FxpVerif.Lemmas.Arith
 namespace Fxp.C06
 open Fxp
 
+/-- for a non-negative fraction length (every inferred one, and a given non-negative one) the scaled extreme is `int(v * 2^n_frac)`. -/
+theorem scaledExt_natCast (n : ℕ) (v : ℚ) : scaledExt (n : ℤ) v = truncInt (v * ((2 ^ ((n : ℤ)).toNat : ℕ) : ℚ)) := by
+  unfold scaledExt; simp
+
 theorem isInt_mul_pow {x : ℚ} {a b : ℕ} (h : a ≤ b) (hx : IsInt (x * 2 ^ a)) : IsInt (x * 2 ^ b) := by
   obtain ⟨z, hz⟩ := hx
   refine ⟨z * 2 ^ (b - a), ?_⟩
@@ -202,7 +206,7 @@ theorem infer_exact_minimal (sg : Bool) (vals : List ℚ) (hne : vals ≠ []) (F
       (min (min ((nWordMax : ℤ) - sign - max ((bits : ℤ) - nfN) 0) nfN + max ((bits : ℤ) - nfN) 0 + sign) nWordMax,
        min ((nWordMax : ℤ) - sign - max ((bits : ℤ) - nfN) 0) nfN) := by
     unfold bestSizes
-    simp only [← hsign, ← hnfN, hvmax, hvmin, ← hbits]
+    simp only [scaledExt_natCast, ← hsign, ← hnfN, hvmax, hvmin, ← hbits]
   rw [hbs] at hb
   have hwf := (Prod.mk.injEq _ _ _ _).mp hb
   obtain ⟨hw', hf'⟩ := hwf
@@ -300,7 +304,7 @@ theorem infer_nword_given (sg : Bool) (vals : List ℚ) (hne : vals ≠ []) (F :
   have hbs : bestSizes sg vals (some wq) none =
       (min wq nWordMax, min (wq - sign - max ((bits : ℤ) - nfN) 0) nfN) := by
     unfold bestSizes
-    simp only [← hsign, ← hnfN, hvmax, hvmin, ← hbits]
+    simp only [scaledExt_natCast, ← hsign, ← hnfN, hvmax, hvmin, ← hbits]
   rw [hbs] at hb
   obtain ⟨hw', hf'⟩ := (Prod.mk.injEq _ _ _ _).mp hb
   unfold nWordMax at hw'
@@ -363,7 +367,7 @@ theorem infer_nfrac_given (sg : Bool) (vals : List ℚ) (fq : ℕ) (w f : ℤ)
       (min (min ((nWordMax : ℤ) - sign - max ((bits : ℤ) - fq) 0) fq + max ((bits : ℤ) - fq) 0 + sign) nWordMax,
        min ((nWordMax : ℤ) - sign - max ((bits : ℤ) - fq) 0) fq) := by
     unfold bestSizes
-    simp only [← hsign, hcastpow, ← hkM, ← hkm, ← hbits]
+    simp only [scaledExt_natCast, ← hsign, hcastpow, ← hkM, ← hkm, ← hbits]
   rw [hbs] at hb
   obtain ⟨hw', hf'⟩ := (Prod.mk.injEq _ _ _ _).mp hb
   unfold nWordMax at hw' hf'
